@@ -365,7 +365,8 @@ def c20(c):
     c.cov["evaluations"] += npairs
     # (2) source-map code behaves as the reference monitor says (same programs and scenarios pass in base mode
     #     in the C02..C18 checks)
-    G.pipeline(c, 60 if c.quick else 400, 40 if c.quick else 300, 4 if c.quick else 10, seed_off=410, mode="source-map", remap=to20)
+    G.pipeline(c, 60 if c.quick else 400, 40 if c.quick else 300, 4 if c.quick else 10, seed_off=410, mode="source-map", remap=to20,
+               model_traces=450 if c.quick else 3000)
     # (3) modifier mode on the plain subset
     for r in range(1 if c.quick else 4):
         rng = random.Random(c.seed * 31 + r)
@@ -374,7 +375,8 @@ def c20(c):
             p["style"]["shadow"] = []
         ib, im = {}, {}
         nb = G.pipeline(c, 0, 0, 4 if c.quick else 10, seed_off=420 + r, progs=progs, mode="base", info=ib)
-        nm = G.pipeline(c, 0, 0, 4 if c.quick else 10, seed_off=420 + r, progs=json.loads(json.dumps(progs)), mode="modifier", remap=to20, info=im)
+        nm = G.pipeline(c, 0, 0, 4 if c.quick else 10, seed_off=420 + r, progs=json.loads(json.dumps(progs)), mode="modifier", remap=to20, info=im,
+                        model_traces=450 if c.quick else 3000)
         if not nb or not nm or "trace" not in ib or "trace" not in im:
             continue
         rb, cb = ret_events(ib["trace"])
